@@ -269,6 +269,21 @@ def gosym_part(prop, tier, seed, name, entry, args_quick=(), args_thorough=None,
                 ok = r["outcome"] == pr["outcome"] and not (r.get("failed") or []) and got_outs == exp_outs
                 if ok:
                     part["replayed"] += 1
+                elif r["outcome"] == pr["outcome"] and (r.get("failed") or []):
+                    # the real code, run natively on the input of this solver-generated path, fails an assertion that the
+                    # symbolic run (which replaces yardl's I/O seams by stubs) did not: a concrete, reproducible violation
+                    for aid in r.get("failed") or []:
+                        key = key_fn(aid, pr["events"] or [], pr.get("outs") or []) if key_fn else "%s:%s" % (name, aid)
+                        key += ":native"
+                        if key in seen_keys:
+                            continue
+                        seen_keys.add(key)
+                        body = {"property": prop, "part": name, "entry": entry, "args": list(args), "assertion": aid, "cond": "failed in the native run of this path only",
+                                "events": pr["events"] or [], "native_result": r,
+                                "how_to_replay": "/verif/bin/check %s --replay <this file>  (re-runs the natively compiled harness on these events via go test -overlay)" % prop}
+                        path = vcommon.write_replay(prop, key, body)
+                        part["violations"].append({"key": key, "obligation": aid, "desc": "assertion %s fails in the native run of path %s (real I/O functions instead of the symbolic run's stubs) for %s" % (aid, pr["prefix"], _short_model(pr["events"])),
+                                                   "model": _short_model(pr["events"]), "replay": path, "replay_confirmed": True})
                 else:
                     part["inconclusive"].append("encoder validation failed: path %s symbolic outcome=%s outs=%s, native outcome=%s outs=%s failed=%s detail=%s" % (
                         pr["prefix"], pr["outcome"], exp_outs[:3], r["outcome"], got_outs[:3], r.get("failed"), (r.get("detail") or "")[:200]))
